@@ -19,6 +19,8 @@ package main
 
 import (
 	"fmt"
+	"os"
+	"runtime/debug"
 	"strings"
 	"go/types"
 
@@ -101,6 +103,9 @@ func (in *Interp) spawn(fnv Value, args []Value) {
 				case *targetPanic:
 					sc.abort = goroutinePanic{r}
 				default:
+					if _, isEnd := r.(pathEnd); !isEnd && os.Getenv("GOSYM_CRASH") != "" {
+						fmt.Fprintf(os.Stderr, "ENGINE-CRASH in goroutine %d: %v\n%s\n", g.id, r, debug.Stack())
+					}
 					sc.abort = r
 				}
 				// deliver to main
@@ -239,7 +244,9 @@ func (in *Interp) schedPointMap(fr *frame) {
 
 func (in *Interp) schedPoint(fr *frame) {
 	sc := in.sc
-	if sc == nil || !sc.enabled || sc.bound == 0 || sc.preempts >= sc.bound || len(sc.runq) == 0 || sc.aborting {
+	if sc == nil || !sc.enabled || sc.bound == 0 || sc.preempts >= sc.bound || len(sc.runq) == 0 || sc.aborting || in.initDepth > 0 {
+		// (no preemption inside a lazily run package init: it happens once per
+		// worker, not once per path)
 		return
 	}
 	c := in.choose(1 + len(sc.runq))
